@@ -87,4 +87,4 @@ install(globals(), 'C02', view, oracle,
         level_note='Trusted: Lean kernel + standard axioms; scheduler model ~ Engine.run_for via trace '
                    'correspondence; float interval lengths are compared up to 1e-9 of a tick.',
         technique='Lean 4 invariant proof over the scheduler loop + event-trace correspondence',
-        required=['timestep_is_interval', 'drained_after_update'])
+        required=['timestep_is_interval', 'timestep_requested_or_remainder', 'drained_after_update', 'noPending_after_runFor'])
